@@ -126,7 +126,25 @@ theorem monitor_sound_step (c : Cfg) (f : Flavor) {m : Mon} {x : GS} (hi : Inv c
               simp [apply, guarded, enforceHolderAuth, hhd, hm, bind, Except.bind, pure, Except.pure]
             rw [this] at hx; cases hx
       simp only [this]; rfl
-    | offer n l => rfl
+    | offer n l =>
+      simp only
+      rw [if_neg]
+      rintro ⟨hl, hin, hp⟩
+      subst hl
+      rw [hh] at hin
+      rw [hpd] at hp
+      cases hhd : x.s.holder with
+      | none => rw [hhd] at hin; simp [holderIn] at hin
+      | some h =>
+        rw [hhd] at hin
+        have hm : h ∈ auth := by simpa [holderIn] using hin
+        have hget : Temp.get? x.s.pending x.s.now = some n := by
+          unfold pendNow at hp
+          rw [hhd] at hp
+          cases f <;> exact hp
+        have : apply c f x.s auth (.offer n 0) = .ok (emit { x.s with pending := none } (.initiated h n 0)) := by
+          simp [apply, offer, enforceHolderAuth, hhd, hm, transferRole, cancelPending, hget, bind, Except.bind, pure, Except.pure]
+        rw [this] at hx; cases hx
     | accept => rfl
     | renounce => rfl
     | advance n => rfl
